@@ -68,6 +68,19 @@ def run_case(case):
             tags.append("json")
         except Exception as exc:  # noqa  (C06 judges the round trip itself)
             tags.append("json-fails(C06)")
+    # the same oracle after one manual edit (missing values grouped into the first group; else first 'group' edit)
+    if case["type"] == "carver" and case["carver"] != "multiclass" and "f" in obj.features and not viol:
+        from . import c17
+
+        evs = c17.enabled(obj, X, case["kind"])
+        ev = next((e for e in evs if e[1] == "NaN"), None) or next((e for e in evs if e[0] == "group"), None)
+        if ev is not None:
+            try:
+                c17.apply_edit(obj, ev)
+                check_object(obj, X, f"after update_discretizer{tuple(ev)}: ", viol)
+                tags.append("edited")
+            except Exception:  # noqa  (the edit itself is C17's business)
+                pass
     res["outcome"] = "+".join(tags)
     if g >= 2:
         res["nontrivial"] = repr(sorted(case.items(), key=str))
